@@ -623,6 +623,68 @@ func runC17Scenario(c c17ScenarioCase) *vh.Outcome {
 				return o
 			}
 		}
+	case "down-peer-in-broadcast":
+		// ONE Send call addresses a peer that is down together with live peers, with more frames than the down peer's queue
+		// holds (so that the call runs into the enqueue timeout, three times): the live peers still receive every frame, in order
+		l, _ := gonet.Listen("tcp", "127.0.0.1:0")
+		down := l.Addr().String()
+		l.Close()
+		sender := w.parties[0]
+		remote := tssnet.SocketRemoteParties{}
+		for k, v := range w.remoteFor(sender, down, 9) {
+			remote[k] = v
+		}
+		for _, q := range w.parties[1:] {
+			for k, v := range w.remoteFor(sender, q.srv.Addr, q.id) {
+				remote[k] = v
+			}
+		}
+		tag := fmt.Sprintf("dpb-%d-", time.Now().UnixNano())
+		const total = 1003 // the queue of a destination holds 1000
+		orders := [][]uint16{{9, 1, 2, 3}, {1, 9, 2, 3}, {9, 3, 2, 1}}
+		for i := 0; i < total; i++ {
+			remote.Send(2, netTopic(98), []byte(fmt.Sprintf("%s%05d", tag, i)), orders[i%len(orders)]...)
+		}
+		for _, q := range w.parties[1:] {
+			want := total
+			ok := q.srv.waitFor(func(got []tssnet.InMsg) bool {
+				k := 0
+				for _, m := range got {
+					if bytes.HasPrefix(m.Data, []byte(tag)) {
+						k++
+					}
+				}
+				return k >= want
+			}, 20*time.Second)
+			var seqs []string
+			q.srv.mu.Lock()
+			for _, m := range q.srv.got {
+				if bytes.HasPrefix(m.Data, []byte(tag)) {
+					seqs = append(seqs, string(m.Data[len(tag):]))
+				}
+			}
+			q.srv.mu.Unlock()
+			if !ok {
+				missing := ""
+				have := map[string]bool{}
+				for _, x := range seqs {
+					have[x] = true
+				}
+				for i := 0; i < total && len(missing) < 60; i++ {
+					if x := fmt.Sprintf("%05d", i); !have[x] {
+						missing += " " + x
+					}
+				}
+				o.Fail = vh.Failf("C17/isolation/down-peer-in-broadcast", "one Send call addressed a down peer and live peers; live party %d received %d of the %d frames (missing:%s): the unreachable destination took frames away from the live ones", q.id, len(seqs), total, missing)
+				return o
+			}
+			for i, x := range seqs {
+				if x != fmt.Sprintf("%05d", i) {
+					o.Fail = vh.Failf("C17/order/down-peer-in-broadcast", "live party %d received frame %s at position %d of the stream sent beside a down peer", q.id, x, i)
+					return o
+				}
+			}
+		}
 	case "down-peer", "stalled-peer":
 		// a destination that is down (nothing listens) or stalled (accepts TLS, never reads); more frames than its queue holds,
 		// then at least 12s so that the 10s enqueue timeout is covered
@@ -686,7 +748,7 @@ func TestC17Scenarios(t *testing.T) {
 	var wg sync.WaitGroup
 	var mu sync.Mutex
 	results := map[string]*vh.Outcome{}
-	for _, name := range []string{"down-peer", "stalled-peer"} {
+	for _, name := range []string{"down-peer", "stalled-peer", "down-peer-in-broadcast"} {
 		name := name
 		wg.Add(1)
 		go func() {
@@ -708,11 +770,11 @@ func TestC17Scenarios(t *testing.T) {
 	wg.Wait()
 	p2 := vh.Prop[c17ScenarioCase]{ID: "C17", Test: "TestC17Scenarios", Run: func(c c17ScenarioCase) *vh.Outcome { return results[c.Name] }}
 	p2.Enumerate(t, st, func(yield func(c17ScenarioCase) bool) {
-		for _, name := range []string{"down-peer", "stalled-peer"} {
+		for _, name := range []string{"down-peer", "stalled-peer", "down-peer-in-broadcast"} {
 			if !yield(c17ScenarioCase{Name: name}) {
 				return
 			}
 		}
 	})
-	st.Note("TestC17Scenarios: type/topic combinations and the size limit, 7 kinds of broken frames after a valid handshake, a down peer and a stalled peer with more frames than the destination queue holds, observed for >= 12s")
+	st.Note("TestC17Scenarios: type/topic combinations and the size limit, 7 kinds of broken frames after a valid handshake, a down peer and a stalled peer with more frames than the destination queue holds, observed for >= 12s, a down peer addressed together with live peers in one Send call (3 enqueue timeouts)")
 }
